@@ -28,6 +28,19 @@ def values(rng, tier):
         out.append(val([x & ~(W - 1) for x in low] + [rng.choice(tops)]))      # zero low halves inside
     return out
 
+def val_words(ws):
+    return sum(w << (32 * i) for i, w in enumerate(ws))
+
+def long_word_lists(rng, tier):
+    """sequences around block sizes a staged / chunked visitor would use (256, 512, 1024, 4096 elements): odd and even
+    lengths just past the block, non-zero elements everywhere, and a zero-high-half top digit (C17-v1: elements staged
+    through a reused [u32; 1024] block, the odd tail of a later block picks up a stale element)"""
+    out = []
+    for blk in ([256, 1024, 4096] if tier != "thorough" else [64, 128, 256, 512, 1024, 2048, 4096, 8192]):
+        for n in (blk - 1, blk, blk + 1, blk + 2, blk + 3, 2 * blk + 1, 2 * blk + 2, 3 * blk + 5):
+            out.append([rng.randrange(1, W) for _ in range(n)])
+    return out
+
 def word_lists(rng, tier):
     out = [[], [0], [0, 0], [0, 0, 0], [1], [1, 0], [0, 1], [0, 0, 1], [1, 0, 0], [W - 1], [W - 1] * 3]
     lens = list(range(0, 13)) + [16, 17]
@@ -58,6 +71,15 @@ def gen(rng, tier):
             reqs.append("C17 i.ser %s" % wi(s))
             reqs.append("C17 i.roundtrip %s" % wi(s))
     wls = word_lists(rng, tier)
+    for ws in long_word_lists(rng, tier):
+        w = wwords(ws)
+        reqs.append("C17 u.de %s" % w)
+        reqs.append("C17 u.de %s %d" % (w, len(ws)))
+        reqs.append("C17 i.de %d %s" % (rng.choice([-1, 1]), w))
+        reqs.append("C17 u.de_in_place %s %s" % (wu(big(rng, 3)), w))
+        v = val_words(ws)
+        reqs.append("C17 u.roundtrip %s" % wu(v))
+        reqs.append("C17 i.roundtrip %s" % wi(-v))
     for ws in wls:
         w = wwords(ws)
         hs = hints(rng, len(ws))
